@@ -11,7 +11,9 @@ here-document state machine).
 Where brush departs from the reference the full statement is refuted on a witness (`_cex`) and the
 theorem is proved under a decidable guard (`_partial` in the doc comment):
 
-* `exec` persists exactly its own redirections only when no enclosing command is redirected;
+* inside a command that has redirected descriptor N itself, `exec N>…` stays shadowed by that
+  redirection (`exec_shadowed_by_enclosing_cex`); otherwise `exec` persists exactly its own redirections
+  in every context;
 * an external child inherits the process's descriptor 0, 1 or 2 where the tables say "closed"
   (`child_closed_std_cex`).
 
@@ -227,29 +229,23 @@ table is the same function afterwards — only `exec` changes it -/
 theorem shell_table_unchanged_after_command (nc : Bool) (c : Cmd) (P O : Table) (s : Sys) (h : noExec c = true) :
     (run nc c P O s).P = P := by
   cases c with
-  | probe tag rs => simp only [run]; split <;> simp [failSimple] <;> split <;> rfl
-  | echo tag rs => simp only [run]; split <;> simp [failSimple] <;> split <;> rfl
+  | probe tag rs => simp only [run]; split <;> rfl
+  | echo tag rs => simp only [run]; split <;> rfl
   | exec rs => simp [noExec] at h
   | group b rs =>
     simp only [run]
     split
     · exact shell_table_unchanged_after_commands nc b P _ _ 0 (by simpa [noExec] using h)
     · rfl
-  | sub b rs =>
-    simp only [run]
-    split
-    · split <;> rfl
-    · rfl
+  | sub b rs => simp only [run]; split <;> rfl
   | call b drs rs =>
     have hb : noExecs b = true := by simpa [noExec] using h
     simp only [run]
     split
     · split
-      · split
-        · exact shell_table_unchanged_after_commands nc b P _ _ 0 hb
-        · exact shell_table_unchanged_after_commands nc b P _ _ 0 hb
+      · exact shell_table_unchanged_after_commands nc b P _ _ 0 hb
       · rfl
-    · simp [failSimple]; split <;> rfl
+    · rfl
 theorem shell_table_unchanged_after_commands (nc : Bool) (cs : Cmds) (P O : Table) (s : Sys) (st : Nat)
     (h : noExecs cs = true) : (runs nc cs P O s st).P = P := by
   cases cs with
@@ -258,50 +254,86 @@ theorem shell_table_unchanged_after_commands (nc : Bool) (cs : Cmds) (P O : Tabl
     simp only [noExecs, Bool.and_eq_true] at h
     simp only [runs]
     have h1 := shell_table_unchanged_after_command nc c P O s h.1
-    split
-    · exact h1
-    · rw [shell_table_unchanged_after_commands nc cs _ O _ _ h.2]; exact h1
+    rw [shell_table_unchanged_after_commands nc cs _ O _ _ h.2]; exact h1
 end
 
 example : noExec (.group (.cons (.probe 1 [.file none .write 0]) (.cons (.sub (.cons (.exec [.file (some 3) .write 1]) .nil) []) .nil))
     [.dup (some 2) false (.fd 1) false]) = true := by
   simp [noExec, noExecs]
 
-/-- full statement: `exec rs` makes exactly `rs` permanent, in every context -/
-def exec_persists_exactly_its_redirects_full : Prop :=
-  ∀ (nc : Bool) (P O : Table) (s : Sys) (rs : List Redir),
-    (FdFlat.applyAll nc (flatten P emptyT) s rs).2.2 = true →
-    flatten (run nc (.exec rs) P O s).P emptyT = (FdFlat.applyAll nc (flatten P emptyT) s rs).1
+private theorem tryFd_persist (P O : Table) (own : List Fd) (fd : Fd) :
+    tryFd (persist P O own) emptyT fd = if fd ∈ own then tryFd P O fd else P.tryFd fd := by
+  have e : tryFd (persist P O own) emptyT fd = (persist P O own).tryFd fd := rfl
+  rw [e]
+  by_cases h : fd ∈ own
+  · simp only [Table.tryFd, persist, h, ↓reduceIte]
+    generalize tryFd P O fd = x
+    cases x <;> rfl
+  · simp only [Table.tryFd, persist, h, ↓reduceIte]
+    cases P fd <;> rfl
 
-/-- **only `exec` redirections persist, and exactly those**: at top level (no enclosing redirection)
-the shell's table after `exec rs` is the old table with `rs` applied left to right as on a flat POSIX
-table; if a redirection fails the table is untouched (`_partial`: guard `O = emptyT`) -/
-theorem exec_persists_exactly_its_redirects (nc : Bool) (P : Table) (s : Sys) (rs : List Redir) :
-    let r := run nc (.exec rs) P emptyT s
-    let f := FdFlat.applyAll nc (flatten P emptyT) s rs
-    (f.2.2 = true → flatten r.P emptyT = f.1 ∧ r.s.fs = f.2.1.fs ∧ r.s.ofds = f.2.1.ofds) ∧
+/-- **only `exec` redirections persist, and exactly those** — in every context, whatever the enclosing
+commands have redirected (`O`): after a successful `exec rs`
+* at each descriptor `rs` itself changes, the shell's table holds what applying `rs` left to right to
+  the flat table the command started from puts there;
+* at every other descriptor the shell's table is what it was — in particular the redirections of an
+  enclosing compound command or function call are not made permanent;
+and the files and open file descriptions are those of the flat run.  If a redirection of `rs` fails
+the shell's table is untouched. -/
+theorem exec_persists_exactly_its_redirects (nc : Bool) (P O : Table) (s : Sys) (rs : List Redir) :
+    let r := run nc (.exec rs) P O s
+    let f := FdFlat.applyAll nc (flatten P O) s rs
+    (f.2.2 = true →
+      (∀ fd ∈ rs.flatMap ownFds, flatten r.P emptyT fd = f.1 fd) ∧
+      (∀ fd, fd ∉ rs.flatMap ownFds → flatten r.P emptyT fd = flatten P emptyT fd) ∧
+      r.s.fs = f.2.1.fs ∧ r.s.ofds = f.2.1.ofds) ∧
     (f.2.2 = false → r.P = P) := by
-  have key := redirects_left_to_right nc P rs emptyT s
+  have key := redirects_left_to_right nc P rs O s
   simp only [run]
-  have hne : noteExec emptyT s = s := by simp [noteExec, emptyT]
-  rw [hne]
-  generalize Fd.applyAll nc P emptyT s rs = x at key ⊢
+  generalize Fd.applyAll nc P O s rs = x at key ⊢
   obtain ⟨O', s', ok⟩ := x
   simp only at key
   rw [← key]
   cases ok with
-  | true => simp [flatten_merged]
-  | false => simp [failSimple]; split <;> rfl
+  | false => simp [failSimple]
+  | true =>
+    simp only [↓reduceIte, forall_const, Bool.true_eq_false, false_implies, and_true]
+    refine ⟨?_, ?_, ?_, ?_⟩
+    · intro fd hfd
+      simp only [flatten, tryFd_persist, hfd, ↓reduceIte]
+    · intro fd hfd
+      simp only [flatten, tryFd_persist, hfd, ↓reduceIte]
+      rfl
+    · simp only [noteExec]; split <;> simp [Sys.note] <;> split <;> rfl
+    · simp only [noteExec]; split <;> simp [Sys.note] <;> split <;> rfl
 
-/-- inside a redirected command `exec` also makes the *enclosing* redirections permanent:
-`{ exec 3>a; } 4>b` leaves descriptor 4 open on `b` afterwards -/
-theorem exec_persists_exactly_its_redirects_full_cex : ¬ exec_persists_exactly_its_redirects_full := by
-  intro h
-  have h1 := h false initP (setT emptyT 4 (.open (.file 7))) initSys [.file (some 3) .write 0]
-    (by simp [FdFlat.applyAll, FdFlat.apply, openFor, sysOpen, initSys, initFs, Sys.push])
-  have h4 := congrFun h1 4
-  simp [run, Fd.applyAll, applyRedirect, flagsFor, isReg, sysOpen, initSys, initFs, Sys.push, noteExec, fds10, setT, emptyT,
-    Sys.note, flatten, merged, tryFd, initP, Table.tryFd, H.ofd, FdFlat.applyAll, FdFlat.apply, openFor, setF, mkOfd] at h4
+/-- at top level (nothing enclosing is redirected) the whole table is the flat one -/
+theorem exec_at_top_level_is_flat (nc : Bool) (P : Table) (s : Sys) (rs : List Redir)
+    (hok : (FdFlat.applyAll nc (flatten P emptyT) s rs).2.2 = true) :
+    flatten (run nc (.exec rs) P emptyT s).P emptyT = (FdFlat.applyAll nc (flatten P emptyT) s rs).1 := by
+  have h := (exec_persists_exactly_its_redirects nc P emptyT s rs).1 hok
+  funext fd
+  by_cases hfd : fd ∈ rs.flatMap ownFds
+  · exact h.1 fd hfd
+  · rw [h.2.1 fd hfd, applyAll_outside_own nc rs _ s fd hfd]
+
+/-- `{ exec 3>a; } 4>b`: descriptor 4, redirected by the enclosing group only, is not persisted -/
+example :
+    let O := setT emptyT 4 (.open (.file 2))
+    let r := run false (.exec [.file (some 3) .write 0]) initP O initSys
+    flatten r.P emptyT 4 = none ∧ flatten r.P emptyT 3 = some 3 := by
+  simp [run, Fd.applyAll, applyRedirect, flagsFor, isReg, sysOpen, initSys, initFs, Sys.push, setT, emptyT,
+    flatten, persist, entryOf, ownFds, tryFd, initP, Table.tryFd, H.ofd, mkOfd]
+
+/-- what is left of the difference: inside a command that has itself redirected descriptor N, an
+`exec N>file` changes the shell's table but the enclosing redirection keeps shadowing it there
+(`{ exec >a; echo x; } >b` writes x to b; in bash to a) -/
+theorem exec_shadowed_by_enclosing_cex :
+    let O := setT emptyT 1 (.open (.file 2))
+    let r := run false (.exec [.file none .write 0]) initP O initSys
+    flatten r.P O 1 = some 2 ∧ (FdFlat.applyAll false (flatten initP O) initSys [.file none .write 0]).1 1 = some 3 := by
+  simp [run, Fd.applyAll, applyRedirect, flagsFor, isReg, sysOpen, initSys, initFs, Sys.push, setT, emptyT,
+    flatten, persist, entryOf, ownFds, tryFd, initP, Table.tryFd, H.ofd, mkOfd, FdFlat.applyAll, FdFlat.apply, openFor, setF, defaultFd]
 
 /-! ## what an external command receives -/
 
